@@ -1,6 +1,7 @@
 package main
 
 import (
+	"database/sql"
 	"fmt"
 	"strings"
 	"sync"
@@ -80,6 +81,15 @@ func c14Check() *HistCheck {
 				return nil, "", &scn.HarnessError{Msg: "control run: " + err.Error()}
 			}
 			var probs []*scn.Problem
+			// what an application process started NOW reads at the database path (the long-lived connections above
+			// keep working on files that were unlinked or replaced under them)
+			if !s.InTx {
+				if fresh, ferr := c14FreshDump(s.DBPath); ferr != nil {
+					probs = append(probs, &scn.Problem{Kind: "source-path-unusable", Detail: "a fresh connection by path: " + scn.ErrClass(ferr)})
+				} else if fresh != got.Dump {
+					probs = append(probs, &scn.Problem{Kind: "source-path-differs", Detail: "a fresh connection by path reads another database than the application's open connections: " + firstDiff(got.Dump, fresh)})
+				}
+			}
 			if got.Dump != want.Dump {
 				probs = append(probs, &scn.Problem{Kind: "application-data-altered", Detail: firstDiff(want.Dump, got.Dump)})
 			}
@@ -103,6 +113,17 @@ func c14Check() *HistCheck {
 			return probs, fmt.Sprintf("ok/appops=%d/ls-inited=%v/%s", len(proj), inited, got.Pragmas[:strings.Index(got.Pragmas, " page_size")]), nil
 		},
 	}
+}
+
+// c14FreshDump opens the database by path on a new connection (read-only: a missing file is an error, not a new
+// empty database) and returns its logical dump.
+func c14FreshDump(path string) (string, error) {
+	c, err := sql.Open("sqlite", "file:"+path+"?mode=ro&_pragma=busy_timeout(2000)")
+	if err != nil {
+		return "", err
+	}
+	defer c.Close()
+	return scn.LogicalDumpDB(c)
 }
 
 func firstDiff(want, got string) string {
@@ -162,6 +183,10 @@ func c14(args []string) int {
 		// then litestream comes back to a database it has replicated before and finds no WAL
 		{Name: "seeded/base/wal-removed-while-down", Cfg: cfgs["base"], Alphabet: strings.Fields("CC CO W1 START NEW S SW LC:TRUNCATE"), Depth: d(4, 5),
 			Seeds: [][]string{strings.Fields("W3 SW CL"), strings.Fields("W3 SW W1 KILL"), strings.Fields("W3 SW LC:TRUNCATE CL")}},
+		// meta-path = the directory of the database itself: whatever litestream removes or rewrites under its meta
+		// path sits next to the application's files (run-time reset, restarts, removal of the local state)
+		{Name: "seeded/meta-in-db-dir/reset", Cfg: func() scn.Config { c := cfgs["base"]; c.MetaInDBDir = true; return c }(), Alphabet: strings.Fields("RSET W1 U S SW LC:TRUNCATE CL START KILL NEW"), Depth: d(3, 4),
+			Seeds: [][]string{strings.Fields("W3 SW"), strings.Fields("W3 SW W1 S")}},
 		{Name: "seeded/base/local-faults", Cfg: cfgs["base"], Alphabet: aFault, Depth: d(2, 4), Seeds: faultSeeds},
 		{Name: "exact/min3/core", Cfg: cfgs["min3"], Alphabet: aCore, Depth: d(3, 5)},
 		{Name: "exact/base/tx", Cfg: cfgs["base"], Alphabet: aTx, Depth: d(3, 5)},
